@@ -120,7 +120,9 @@ class RealScaleMixin:
         import hypothesis
         from hypothesis import given, settings, HealthCheck, Phase
         from ..runner import derive_seed
-        n = max(1, self.real_cases[tier] // nshards)
+        # +1: the first example Hypothesis generates is always the simplest
+        # one (identical in every shard)
+        n = max(1, self.real_cases[tier] // nshards) + 1
 
         @hypothesis.seed(derive_seed(seed, shard, self.id + 'real'))
         @settings(max_examples=n, database=None, deadline=None,
@@ -579,6 +581,60 @@ class C08(E2ECheck):
         nt = any(r['outcome'] and not r['outcome'].get('ok')
                  for r in R.transfers)
         return cls, nt
+
+    # coordinator-level part: done announced from two threads at once with a
+    # forced preemption at every executed line of futures.py (the run-once
+    # guarantee of the done-callback / failure-cleanup lists)
+    COORD_SIGS = ('conc:callback-ran-twice', 'conc:cleanup-ran-twice',
+                  'conc:callback-never-ran')
+
+    def _coord_out(self, viol, info, fp=None):
+        out = {'violations': [], 'cls': ['coord-line-preempt'],
+               'nontrivial': True}
+        if fp:
+            out['fp'] = fp
+        if viol and viol[0] in self.COORD_SIGS:
+            out['violations'].append(('c08:coord:' + viol[0][5:], viol[1]))
+        return out
+
+    def execute(self, case):
+        if case.get('kind') == 'conc':
+            from ..units import coord
+            viol, info = coord.run_concurrent(case)
+            return self._coord_out(viol, info)
+        return super().execute(case)
+
+    def shrink_candidates(self, case):
+        if case.get('kind') == 'conc':
+            return []
+        return super().shrink_candidates(case)
+
+    def extra_shards(self, tier):
+        return 16
+
+    def extra_shard(self, tier, seed, shard, nshards, stats):
+        from ..units import coord
+        from .. import systematic
+        for case, viol, info, fp in coord.systematic_line_cases(
+                coord.LINE_PREFIXES[2:], shard, nshards):
+            stats.add(case, self._coord_out(viol, info, fp), max_samples=0)
+        # whole transfers: one forced preemption at every executed line
+        picks = (0, 1) if tier == 'thorough' else (0,)
+        for name, case in systematic.single_line_cases(
+                shard, nshards, self.run, picks=picks):
+            out = E2ECheck.execute(self, case)
+            out['cls'] = [f'line-systematic:{name.split("+")[0]}']
+            stats.add(case, out, max_samples=0)
+
+    def coverage_extra(self, tier, results):
+        return {'coordinator_level': 'every pair of coordinator operations '
+                'on two threads from 4 start states with registered done '
+                'callbacks and failure cleanups, one forced preemption at '
+                'every executed line of futures.py (class coord-line-preempt)',
+                'line_systematic': 'every scenario of the fixed matrix '
+                '(plain, and with a cancel at 3 early steps) with one forced '
+                'preemption at every executed s3transfer source line '
+                '(thorough: to each of 2 other threads)'}
 
 
 class C09(RealScaleMixin, E2ECheck):
